@@ -886,4 +886,33 @@ example : (show Except Err _ from do
 
 end Refs
 
+/-! ## Part 8 (round 6b): the way back (`tensor_type_to_dtype`) and dtype spellings -/
+section Reverse
+
+/-- `tensor_type_to_dtype` (executed on this run for every enum 0..31) is the ONNX table read backwards. -/
+theorem tensor_type_to_dtype_exact : ∀ e, e < 32 → dtypeOfEnum e = onnxDType e := by decide
+
+/-- Element type → enum → element type is the identity (what `Var.type` reads back is what was embedded) … -/
+theorem type_roundtrip (d : DType) : dtypeOfEnum (enumOf d) = some d := by cases d <;> rfl
+
+/-- … and enum → element type → enum too, for every enum 0..31. -/
+theorem type_roundtrip_inv :
+    ∀ e ∈ List.range 32, (dtypeOfEnum e).all (fun d => enumOf d == e) = true := by decide
+
+/-- The tensor spox embeds for an array reads back - through spox's own `tensor_type_to_dtype` - as the array's
+    element type and shape. -/
+theorem embedded_type_reads_back (q : Bool) (a : Arr) (name : String) (t : TProto)
+    (h : fromArray q a name = some t) : dtypeOfEnum t.dataType = some a.dtype ∧ t.dims = a.shape := by
+  obtain ⟨d, shape, words, strs⟩ := a
+  cases d <;>
+    simp only [fromArray, enumOf, onnxDType, fieldOf, ne_eq, not_true_eq_false, if_false,
+      Option.some.injEq] at h <;> subst h <;> exact ⟨rfl, rfl⟩
+
+/-- Every spelling of an element type (Python builtins, C aliases, type codes, byte orders, string widths, an array's
+    `.dtype`) is normalised to the enum of its canonical element type (executed on this run). -/
+theorem generated_aliases_ok :
+    (∀ r ∈ aliases, r.2.2 = enumOf r.2.1) ∧ aliases.length ≥ 30 := by decide
+
+end Reverse
+
 end C10
